@@ -27,11 +27,54 @@ def check_case(rep, case, name):
             if abs(got - want) > 1e-9 * max(1.0, abs(want)): rep.dev(name, dict(case, route=route, rs=[x]), '%s(%r)=%r' % (route, x, got), want); return
             rep.ok()
 
+def buck4_reference(A, rho, C, d, m, a):
+    """the documented four-range Buckingham form solved independently: Born-Mayer up to d, a fifth-order polynomial on [d, m], a third-order
+    polynomial on [m, a] (both with zero slope at m, value and curvature continuous there), -C/r^6 beyond a; value, slope and curvature
+    continuous at d and a (ten linear conditions)"""
+    import numpy as np
+    M = np.zeros((10, 10)); b = np.zeros(10)
+    p5 = lambda x, n: [(math.factorial(i) / math.factorial(i - n)) * x ** (i - n) if i >= n else 0.0 for i in range(6)]
+    p3 = lambda x, n: [(math.factorial(i) / math.factorial(i - n)) * x ** (i - n) if i >= n else 0.0 for i in range(4)]
+    bm = [A * math.exp(-d / rho), -A / rho * math.exp(-d / rho), A / rho ** 2 * math.exp(-d / rho)]
+    dp = [-C / a ** 6, 6 * C / a ** 7, -42 * C / a ** 8]
+    for n in range(3): M[n, :6] = p5(d, n); b[n] = bm[n]
+    M[3, :6] = p5(m, 1); M[4, 6:] = p3(m, 1)
+    M[5, :6] = p5(m, 0); M[5, 6:] = [-v for v in p3(m, 0)]
+    M[6, :6] = p5(m, 2); M[6, 6:] = [-v for v in p3(m, 2)]
+    for n in range(3): M[7 + n, 6:] = p3(a, n); b[7 + n] = dp[n]
+    co = np.linalg.solve(M, b)
+    def f(r):
+        if r <= d: return A * math.exp(-r / rho)
+        if r <= m: return float(sum(c * r ** i for i, c in enumerate(co[:6])))
+        if r <= a: return float(sum(c * r ** i for i, c in enumerate(co[6:])))
+        return -C / r ** 6
+    return f
+
+def buck4_cases(rep, rng, n):
+    plist = [[905.7, 0.3, 0.0, 1.5, 2.5, 3.25], [1000.0, 0.3, 30.0, 1.0, 2.0, 3.0], [0.0, 0.3, 25.0, 1.2, 2.1, 2.6]]
+    for _ in range(n): plist.append([round(rng.uniform(500, 5000), 1), round(rng.uniform(0.25, 0.4), 3), rng.choice([0.0, round(rng.uniform(5, 100), 1)]), 1.2, 2.1, 2.6])
+    for params in plist:
+        case = dict(form='buck4', params=params); rep.case('buck4', case)
+        ref = buck4_reference(*params)
+        try: rs = {'factory': pf.buck4(*params), 'as.NAME': from_config('>=0 as.buck4 ' + ' '.join(repr(p) for p in params))}
+        except Exception as e: rep.dev('buck4-%s' % params, case, 'exception %r' % (e,), 'two routes'); continue
+        d, m, a = params[3:]
+        bad = None
+        for route, f in rs.items():
+            for x in (0.5 * d, d, (d + m) / 2, m, (m + a) / 2, a, a + 0.8):
+                want = ref(x); got = f(x)
+                if abs(got - want) > 1e-7 * max(1.0, abs(want)): bad = (route, x, got, want); break
+            if bad: break
+        if bad: rep.dev('buck4-%s' % params, dict(case, route=bad[0], rs=[bad[1]]), '%s(%r)=%r' % (bad[0], bad[1], bad[2]), bad[3])
+        else: rep.ok()
+
 if __name__ == '__main__':
     pl = payload(); rep = Report('C06')
-    if pl.get('mode') == 'replay': rep.case('replay', pl['input']); check_case(rep, pl['input'], 'replay')
+    if pl.get('mode') == 'replay' and pl['input'].get('form') == 'buck4': buck4_cases(rep, random.Random(0), 0)
+    elif pl.get('mode') == 'replay': rep.case('replay', pl['input']); check_case(rep, pl['input'], 'replay')
     else:
         rng = random.Random(pl.get('seed', 0))
+        buck4_cases(rep, rng, 3)
         for rnd_i in range(pl.get('n', 1)):
             order = sorted(LEAVES); rng.shuffle(order)       # the order of evaluation varies: forms must not depend on history
             for nm in order:
